@@ -12,7 +12,8 @@ PROP = "C05"
 LEVEL = "exploration"
 RULE = (
     "seeded piecewise-stationary (y_true,y_pred) histories (lengths 20-400, plus short binary "
-    "prefixes of length 4-16) x randomised n_threshold/window and thresholds for DDM, EDDM, STEPD; "
+    "prefixes of length 4-16; plus - index-derived, not random - every agreement sequence of length 1-9 (thorough: 1-13) for "
+    "two small configurations per detector) x randomised n_threshold/window and thresholds for DDM, EDDM, STEPD; "
     "after every update state and retraining_recs are compared with the from-scratch executable "
     "specification of the current epoch. A run is non-trivial if it contains >=1 drift and reaches "
     "a second epoch; distinct = distinct trace digests among those."
@@ -24,7 +25,28 @@ TOL = 1e-9
 
 def scenarios(tier):
     k = 1 if tier == "quick" else 12
-    return [("ddm", 500 * k), ("eddm", 500 * k), ("stepd", 350 * k), ("short", 600 * k)]
+    # "enum": index-derived (not random) enumeration of ALL agreement sequences of length 1..ENUM_N for a few small
+    # configurations per detector - the property's own quantifier for short sequences; supplementary to the seeded search
+    return [("ddm", 500 * k), ("eddm", 500 * k), ("stepd", 350 * k), ("short", 600 * k), ("enum", ENUM_TOTAL if tier == "quick" else ENUM_TOTAL_THOROUGH)]
+
+
+ENUM_CFGS = [
+    {"det": "ddm", "n_threshold": 1, "warning_scale": 2.0, "drift_scale": 3.0}, {"det": "ddm", "n_threshold": 3, "warning_scale": 1.0, "drift_scale": 1.5},
+    {"det": "eddm", "n_threshold": 1, "warning_thresh": 0.95, "drift_thresh": 0.9}, {"det": "eddm", "n_threshold": 3, "warning_thresh": 0.95, "drift_thresh": 0.8},
+    {"det": "stepd", "window_size": 1, "alpha_warning": 0.3, "alpha_drift": 0.1}, {"det": "stepd", "window_size": 2, "alpha_warning": 0.2, "alpha_drift": 0.05},
+]
+ENUM_N = 9
+ENUM_SEQS = 2 ** (ENUM_N + 1) - 2              # all non-empty sequences up to length ENUM_N
+ENUM_TOTAL = ENUM_SEQS * len(ENUM_CFGS)
+ENUM_N_THOROUGH = 13
+ENUM_TOTAL_THOROUGH = (2 ** (ENUM_N_THOROUGH + 1) - 2) * len(ENUM_CFGS)
+
+
+def _enum_case(i):
+    cfg = ENUM_CFGS[i % len(ENUM_CFGS)]
+    j = i // len(ENUM_CFGS) + 2                  # j = 2.. : binary representation without its leading 1 is the sequence
+    bits = bin(j)[3:]
+    return {"cfg": dict(cfg), "events": [[1, 1 if b == "1" else 0] for b in bits]}
 
 
 def _cfg(rng, det):
@@ -60,6 +82,13 @@ def gen(rng, scenario, tier):
     return {"cfg": cfg, "events": ev}
 
 
+INDEXED_SCENARIOS = ("enum",)
+
+
+def gen_indexed(scenario, i, tier):
+    return _enum_case(i)
+
+
 def build(cfg):
     from menelaus.concept_drift import DDM, EDDM, STEPD
 
@@ -78,6 +107,8 @@ def spec_for(cfg):
 def run(case, ctx):
     cfg = case["cfg"]
     name = cfg["det"]
+    if case.get("scenario") == "enum":
+        ctx.probe("enumerated_short_sequences")
     det = ctx.call(f"C05:{name}:ctor", build, cfg)
     spec = spec_for(cfg)
     recs = Recs("run" if name == "stepd" else "first")
